@@ -59,6 +59,9 @@ func lockDiscipline(r *Report, p *Program, rule string, sel func(mapID string) b
 		if !writtenConc && !anyLocked {
 			continue // never written concurrently and never locked: not a shared map
 		}
+		if !anyLocked && !longLived(p, id, conc) {
+			continue // objects of this type are created by the goroutine that uses them (per-call builders, responses, fresh tables)
+		}
 		if why, exc := lockExceptions[engine.Short(id)]; exc {
 			r.Check(rule, engine.Short(id)+"[exception]", "-", true, "reasoned exception: "+why, "")
 			continue
@@ -713,4 +716,37 @@ func alwaysNilError(f *ssa.Function) bool {
 		}
 	}
 	return true
+}
+
+// longLived: the struct owning the map field is allocated somewhere outside the
+// goroutine-reachable code (constructors run from Reconcile / main), or it is a
+// package variable: such objects outlive a single call and are shared.
+func longLived(p *Program, mapID string, conc map[*ssa.Function]bool) bool {
+	if strings.HasPrefix(mapID, "global(") {
+		return true
+	}
+	i := strings.LastIndex(mapID, ".")
+	owner := mapID[:i]
+	called := map[*ssa.Function]bool{}
+	for _, outs := range p.CG().Out {
+		for _, t := range outs {
+			called[t] = true
+		}
+	}
+	for _, f := range p.Scanned {
+		if conc[f] || !called[f] {
+			continue // goroutine-side allocation, or dead code
+		}
+		for _, b := range f.Blocks {
+			for _, in := range b.Instrs {
+				if a, ok := in.(*ssa.Alloc); ok {
+					t := strings.TrimPrefix(a.Type().String(), "*")
+					if t == owner {
+						return true
+					}
+				}
+			}
+		}
+	}
+	return false
 }
